@@ -243,3 +243,169 @@ Proof.
 Qed.
 
 End Count.
+
+(* ------------------------------------------------------------------ cross *)
+
+Section CrossC.
+  Variables (id ci : N) (g : fn2) (p1 p2 : pipe) (lb : list Z) (stb : status) (c2 : nat).
+  Hypothesis H2 : yc id p2 (init p2) lb stb c2.
+  Let PC := PCross ci g p1 p2.
+  Let k := b2n (N.eqb ci id).
+
+  Lemma cross_row_c : forall a q1 K BK, (forall q2x, ycB id PC (QCross None q1 q2x) K BK) ->
+    forall q2 l2 c, yc id p2 q2 l2 stb c ->
+    ycB id PC (QCross (Some a) q1 q2) (row_result g stb a l2 K) (c + k * length l2 + BK).
+  Proof.
+    intros a q1 K BK HK q2 l2 c H. unfold row_result.
+    remember stb as st0 eqn:Est in H.
+    induction H as [q|q l H|q l e H|q l q' items st c H Hy IH|q l v q' items st c H Hy IH].
+    - cbn [map_until]. rewrite <- Est. apply ycB_open.
+    - cbn [map_until app]. rewrite <- Est.
+      eapply (ycB_skip id _ _ _ _ K); [unfold PC; cbn [next]; rewrite H; reflexivity|apply HK|lia].
+    - cbn [map_until]. rewrite <- Est.
+      eapply ycB_fail; [unfold PC; cbn [next]; rewrite H; reflexivity|lia].
+    - specialize (IH Est). eapply ycB_skip; [unfold PC; cbn [next]; rewrite H; reflexivity|exact IH|lia].
+    - specialize (IH Est). cbn [map_until length]. destruct (g a v) as [o|e] eqn:Eg.
+      + destruct (map_until (g a) items) as [r e].
+        assert (En : next PC (QCross (Some a) q1 q) = (l ++ [Ev ci [a; v]], Item o (QCross (Some a) q1 q'))).
+        { unfold PC. cbn [next]. rewrite H, Eg. reflexivity. }
+        assert (Hc : count id (l ++ [Ev ci [a; v]]) = (count id l + k)%nat).
+        { rewrite count_app, count_one. reflexivity. }
+        destruct e as [e|].
+        * eapply (ycB_item id _ _ _ _ _ (r, Failed e)); [exact En|exact IH|rewrite Hc; nia].
+        * destruct stb; cbn [app].
+          -- eapply (ycB_item id _ _ _ _ _ (r, Open)); [exact En|exact IH|rewrite Hc; nia].
+          -- eapply (ycB_item id _ _ _ _ _ (r ++ fst K, snd K)); [exact En|exact IH|rewrite Hc; nia].
+          -- eapply (ycB_item id _ _ _ _ _ (r, Failed e)); [exact En|exact IH|rewrite Hc; nia].
+      + eapply ycB_fail; [unfold PC; cbn [next]; rewrite H, Eg; reflexivity|].
+        rewrite count_app, count_one. fold k. nia.
+  Qed.
+
+  Lemma cross_outer_c : forall q1 la sta c1, yc id p1 q1 la sta c1 ->
+    forall q2, ycB id PC (QCross None q1 q2) (crossF g lb stb la sta) (c1 + length la * (c2 + k * length lb)).
+  Proof.
+    intros q1 la sta c1 H.
+    induction H as [q|q l H|q l e H|q l q' items st c H Hy IH|q l v q' items st c H Hy IH]; intros q2;
+      cbn [crossF].
+    - apply ycB_open.
+    - eapply ycB_done; [unfold PC; cbn [next]; rewrite H; reflexivity|lia].
+    - eapply ycB_fail; [unfold PC; cbn [next]; rewrite H; reflexivity|lia].
+    - eapply ycB_skip; [unfold PC; cbn [next]; rewrite H; reflexivity|apply IH|lia].
+    - eapply ycB_skip; [unfold PC; cbn [next]; rewrite H; reflexivity| |].
+      + apply cross_row_c; [exact IH|exact H2].
+      + cbn [length]. nia.
+  Qed.
+End CrossC.
+
+(* ------------------------------------------------------------------ merge *)
+
+Section MergeC.
+  Variables (id ci : N) (less : pr2) (p1 p2 : pipe).
+  Let PM := PMerge ci less p1 p2.
+  Let k := b2n (N.eqb ci id).
+
+  Lemma merge_b_ended_c : forall q1 la sta c1, yc id p1 q1 la sta c1 ->
+    forall q2, ycB id PM (QMerge false true None None q1 q2) (la, sta) c1.
+  Proof.
+    intros q1 la sta c1 H.
+    induction H as [q|q l H|q l e H|q l q' items st c H Hy IH|q l v q' items st c H Hy IH]; intros q2.
+    - apply ycB_open.
+    - eapply (ycB_skip id _ _ _ _ ([], Closed) O); [unfold PM; cbn [next]; rewrite H; reflexivity| |lia].
+      eapply (ycB_done id _ _ []); [unfold PM; cbn [next]; reflexivity|cbn; lia].
+    - eapply ycB_fail; [unfold PM; cbn [next]; rewrite H; reflexivity|lia].
+    - eapply ycB_skip; [unfold PM; cbn [next]; rewrite H; reflexivity|apply IH|lia].
+    - eapply (ycB_skip id _ _ _ _ (v :: items, st) c); [unfold PM; cbn [next]; rewrite H; reflexivity| |lia].
+      eapply (ycB_item id _ _ [] _ _ (items, st)); [unfold PM; cbn [next]; reflexivity|apply IH|cbn; lia].
+  Qed.
+
+  Lemma merge_a_ended_none_c : forall q2 lb stb c2, yc id p2 q2 lb stb c2 ->
+    forall q1, ycB id PM (QMerge true false None None q1 q2) (lb, stb) c2.
+  Proof.
+    intros q2 lb stb c2 H.
+    induction H as [q|q l H|q l e H|q l q' items st c H Hy IH|q l v q' items st c H Hy IH]; intros q1.
+    - apply ycB_open.
+    - eapply (ycB_skip id _ _ _ _ ([], Closed) O); [unfold PM; cbn [next]; rewrite H; reflexivity| |lia].
+      eapply (ycB_done id _ _ []); [unfold PM; cbn [next]; reflexivity|cbn; lia].
+    - eapply ycB_fail; [unfold PM; cbn [next]; rewrite H; reflexivity|lia].
+    - eapply ycB_skip; [unfold PM; cbn [next]; rewrite H; reflexivity|apply IH|lia].
+    - eapply (ycB_skip id _ _ _ _ (v :: items, st) c); [unfold PM; cbn [next]; rewrite H; reflexivity| |lia].
+      eapply (ycB_item id _ _ [] _ _ (items, st)); [unfold PM; cbn [next]; reflexivity|apply IH|cbn; lia].
+  Qed.
+
+  Lemma merge_a_ended_c : forall q2 lb stb c2, yc id p2 q2 lb stb c2 ->
+    forall b q1, ycB id PM (QMerge true false None b q1 q2) (ob b ++ lb, stb) c2.
+  Proof.
+    intros q2 lb stb c2 H b q1. destruct b as [y|]; cbn [ob app].
+    - eapply (ycB_item id _ _ [] _ _ (lb, stb) c2); [unfold PM; cbn [next]; reflexivity| |cbn; lia].
+      apply merge_a_ended_none_c. exact H.
+    - apply merge_a_ended_none_c. exact H.
+  Qed.
+
+  Lemma merge_a_waiting_c : forall x la sta q1 cA,
+    (forall b q2 lb stb c2, yc id p2 q2 lb stb c2 ->
+       ycB id PM (QMerge false false None b q1 q2) (mergeF less la sta (ob b ++ lb) stb)
+           (cA + c2 + k * (length la + length (ob b ++ lb)))) ->
+    (forall q2, ycB id PM (QMerge false true None None q1 q2) (la, sta) cA) ->
+    forall q2 lb stb c2, yc id p2 q2 lb stb c2 ->
+    ycB id PM (QMerge false false (Some x) None q1 q2) (mergeF less (x :: la) sta lb stb)
+        (cA + c2 + k * (S (length la) + length lb)).
+  Proof.
+    intros x la sta q1 cA IHA HE q2 lb stb c2 H.
+    induction H as [q|q l H|q l e H|q l q' items st c H Hy IH|q l v q' items st c H Hy IH].
+    - rewrite mergeF_cons_nil. apply ycB_open.
+    - rewrite mergeF_cons_nil. cbn [end_side].
+      eapply (ycB_skip id _ _ _ _ (x :: la, sta) cA); [unfold PM; cbn [next]; rewrite H; reflexivity| |lia].
+      eapply (ycB_item id _ _ [] _ _ (la, sta)); [unfold PM; cbn [next]; reflexivity|apply HE|cbn; lia].
+    - rewrite mergeF_cons_nil. cbn [end_side].
+      eapply ycB_fail; [unfold PM; cbn [next]; rewrite H; reflexivity|lia].
+    - eapply ycB_skip; [unfold PM; cbn [next]; rewrite H; reflexivity|exact IH|lia].
+    - rewrite mergeF_cons_cons. cbn [length].
+      assert (Hk : count id [Ev ci [x; v]] = k) by (rewrite count_one; reflexivity).
+      destruct (less x v) as [[|]|e] eqn:El.
+      + eapply (ycB_skip id _ _ _ _ _ (k + (cA + c + k * (length la + S (length items)))));
+          [unfold PM; cbn [next]; rewrite H; reflexivity| |nia].
+        eapply (ycB_item id _ _ [Ev ci [x; v]]); [unfold PM; cbn [next]; rewrite El; reflexivity
+          |apply (IHA (Some v) q' items st c Hy)|rewrite Hk; cbn [ob app length]; lia].
+      + eapply (ycB_skip id _ _ _ _ _ (k + (cA + c + k * (S (length la) + length items))));
+          [unfold PM; cbn [next]; rewrite H; reflexivity| |nia].
+        eapply (ycB_item id _ _ [Ev ci [x; v]]); [unfold PM; cbn [next]; rewrite El; reflexivity|exact IH|rewrite Hk; lia].
+      + eapply (ycB_skip id _ _ _ _ _ k); [unfold PM; cbn [next]; rewrite H; reflexivity| |nia].
+        eapply ycB_fail; [unfold PM; cbn [next]; rewrite El; reflexivity|rewrite Hk; lia].
+  Qed.
+
+  Lemma merge_main_c : forall q1 la sta c1, yc id p1 q1 la sta c1 ->
+    forall b q2 lb stb c2, yc id p2 q2 lb stb c2 ->
+    ycB id PM (QMerge false false None b q1 q2) (mergeF less la sta (ob b ++ lb) stb)
+        (c1 + c2 + k * (length la + length (ob b ++ lb))).
+  Proof.
+    intros q1 la sta c1 H.
+    induction H as [q|q l H|q l e H|q l q' items st c H Hy IH|q l v q' items st c H Hy IH];
+      intros b q2 lb stb c2 H2.
+    - apply ycB_open.
+    - cbn [mergeF end_side]. eapply ycB_skip; [unfold PM; cbn [next]; rewrite H; reflexivity| |].
+      + apply merge_a_ended_c. exact H2.
+      + lia.
+    - cbn [mergeF end_side]. eapply ycB_fail; [unfold PM; cbn [next]; rewrite H; reflexivity|lia].
+    - eapply ycB_skip; [unfold PM; cbn [next]; rewrite H; reflexivity|apply IH; exact H2|lia].
+    - assert (HE : forall q2x, ycB id PM (QMerge false true None None q' q2x) (items, st) c).
+      { intros q2x. apply merge_b_ended_c. exact Hy. }
+      cbn [length].
+      destruct b as [y|]; cbn [ob app length].
+      + rewrite mergeF_cons_cons.
+        assert (Hk : count id [Ev ci [v; y]] = k) by (rewrite count_one; reflexivity).
+        destruct (less v y) as [[|]|e] eqn:El.
+        * eapply (ycB_skip id _ _ _ _ _ (k + (c + c2 + k * (length items + length (ob (Some y) ++ lb)))));
+            [unfold PM; cbn [next]; rewrite H; reflexivity| |cbn [ob app length]; nia].
+          eapply (ycB_item id _ _ [Ev ci [v; y]]); [unfold PM; cbn [next]; rewrite El; reflexivity
+            |apply (IH (Some y) q2 lb stb c2 H2)|rewrite Hk; lia].
+        * eapply (ycB_skip id _ _ _ _ _ (k + (c + c2 + k * (S (length items) + length lb))));
+            [unfold PM; cbn [next]; rewrite H; reflexivity| |nia].
+          eapply (ycB_item id _ _ [Ev ci [v; y]]); [unfold PM; cbn [next]; rewrite El; reflexivity
+            |apply merge_a_waiting_c; [exact IH|exact HE|exact H2]|rewrite Hk; lia].
+        * eapply (ycB_skip id _ _ _ _ _ k); [unfold PM; cbn [next]; rewrite H; reflexivity| |nia].
+          eapply ycB_fail; [unfold PM; cbn [next]; rewrite El; reflexivity|rewrite Hk; lia].
+      + eapply ycB_skip; [unfold PM; cbn [next]; rewrite H; reflexivity| |].
+        * apply merge_a_waiting_c; [exact IH|exact HE|exact H2].
+        * lia.
+  Qed.
+End MergeC.
